@@ -6,6 +6,9 @@ PK_BYTELEN = {512: 897, 1024: 1793}
 SK_BYTELEN = {512: 1281, 1024: 2305}
 SALT_LEN = 40
 SIG_HEADER_BASE = 0x50    # this library labels its (padded, compressed) signatures 0 10 1 nnnn; C16 notes the re-labelling w.r.t. the reference (0x30 + logn)
+# Falcon specification, Table 3.3 (sigma, sigma_min) and section 3.11 (byte lengths)
+SIGMA = {512: 165.7366171829776, 1024: 168.38857144654395}
+SIGMA_MIN = {512: 1.2778336969128337, 1024: 1.298280334344292}
 COEFF_LIMIT = 12160                                     # property C07: entries below 12160 in magnitude (95 * 128)
 
 
